@@ -769,7 +769,10 @@ def m_slice_iter(c):
         return
     ln, l = len_lin(c, arr, loc)
     src = loc if (loc is not None and c.name.endswith("iter_mut")) else None
-    c.ret(Iter("slice", ln, arr.elem if not arr.elem.is_bot() else Top(), extra=("refmut", src) if src else "ref",
+    # `start` is unused for slice iterators: it remembers which container a plain `iter()` walks over (all of it), so that a universally
+    # quantified outcome (any() == false, all() == true) can be recorded on the container's summary element
+    c.ret(Iter("slice", ln, arr.elem if not arr.elem.is_bot() else Top(), start=(loc if (loc is not None and not src) else None),
+               extra=("refmut", src) if src else "ref",
                cells=dict(arr.cells) if (arr.cells and not src) else None, pos=0), extras=((("rem",), l),))
 
 
@@ -1083,6 +1086,24 @@ def _closure_bools(c, clo, arg):
     return Int.boolean()
 
 
+def _pred_by_variant(c, clo, it, elem):
+    """for every enum node of the element with several variants: variant -> the predicate's constant answer (None when not constant)"""
+    from absint import _discriminators
+    out = {}
+    for path, kind, variants in _discriminators(elem):
+        if kind != "enum" or len(variants) < 2:
+            continue
+        e = get_at(elem, path)
+        tab = {}
+        for idx in sorted(variants):
+            ev = set_at(elem, path, Enum(e.path, {idx: e.variants[idx]}))
+            cell = new_tmp(c, c.st, ev, ("predelem", idx))
+            r = _closure_result_pure(c, clo, [(Ref(cell, ()) if it.extra != "val" else ev, None)])
+            tab[idx] = r.lo if isinstance(r, Int) and r.is_const() else None
+        out[path] = tab
+    return out
+
+
 @model("std::iter::Iterator::any", "std::iter::Iterator::all")
 def m_any_all(c):
     r, _ = c.arg(0)
@@ -1105,10 +1126,51 @@ def m_any_all(c):
     c.I.emit("any_all", call=c, closure=clo, elem_bools=b, iter_src=it)
     if b.is_const() and b.lo == empty_result:
         c.ret(Int.const(empty_result, 1, False))
-    elif b.is_const() and rem.lo >= 1:
+        return
+    if b.is_const() and rem.lo >= 1:
         c.ret(Int.const(b.lo, 1, False))
-    else:
-        c.ret(Int.boolean())
+        return
+    # undetermined: one successor per outcome.  The outcome that speaks about *every* element (any == false, all == true) is recorded on
+    # the summary element of the container the iterator walks over: variants for which the predicate gives the excluded answer are removed
+    src = it.start if isinstance(it.start, tuple) and it.extra == "ref" else None
+    univ = empty_result                      # any: false (0), all: true (1) is the universally quantified outcome
+    s_other = c.fork()
+    c.ret(Int.const(1 - univ, 1, False), st=s_other)
+    s_u = c.st
+    try:
+        if b.is_const() and b.lo == 1 - univ:
+            # the predicate gives the excluded answer for every possible element: the universal outcome means there was no element
+            rv_ = (loc[0], loc[1] + ("rem",)) if loc is not None else None
+            if rv_ is not None and s_u.leaf(rv_) is not None:
+                c.I.assume_var(s_u, rv_, 0, True)
+            if src is not None:
+                cur0 = c.I.read_loc(s_u, src)
+                if isinstance(cur0, Arr) and s_u.leaf((src[0], src[1] + ("len",))) is not None:
+                    c.I.assume_var(s_u, (src[0], src[1] + ("len",)), 0, True)
+        elif src is not None and isinstance(clo, Closure):
+            cur = c.I.read_loc(s_u, src)
+            if isinstance(cur, Arr):
+                tabs = _pred_by_variant(c, clo, it, cur.elem if not cur.elem.is_bot() else elem)
+                new_elem = cur.elem
+                empty_only = False
+                for path, tab in tabs.items():
+                    e = get_at(new_elem, path)
+                    if not isinstance(e, Enum):
+                        continue
+                    keep = {i: e.variants[i] for i in e.variants if tab.get(i) != (1 - univ)}
+                    if not keep:
+                        empty_only = True
+                    elif len(keep) < len(e.variants):
+                        new_elem = set_at(new_elem, path, Enum(e.path, keep))
+                if empty_only:
+                    # no element can satisfy the outcome: the container is empty
+                    lv = (src[0], src[1] + ("len",))
+                    c.I.assume_var(s_u, lv, 0, True)
+                elif new_elem is not cur.elem:
+                    s_u.cells[src[0]] = set_at(s_u.cells[src[0]], src[1], Arr(cur.len, new_elem, None, cur.container, cur.view_of))
+        c.ret(Int.const(univ, 1, False), st=s_u)
+    except Infeasible:
+        pass
 
 
 @model("std::iter::Iterator::position")
